@@ -11,15 +11,17 @@ S <hex>          -- one per entry of the removal list (`stns` only)
 L <hex>          -- one per line of the input file (hex of the line's bytes, without newline)
 END
 ```
-`op` ∈ `stns | vel | zeros | est | mat | sites | wf`.  Response: ONE stdout line.
+`op` ∈ `stns | vel | zeros | est | mat | sites | wf | wft`.  Response: ONE stdout line.
 * editors: `OK <hex of the raw output text>` or `ERR <ExceptionName>`
 * `est`:   `OK` then per record ` R h:<code> h:<soln> h:<epoch> v…` (`v` = 16 hex digits of the
   binary64 pattern, or `e` for the initial `''`)
 * `mat`:   `OK` then per record ` R h:<code> h:<soln> v…`
 * `sites`: `OK` then per record ` R h:<site> h:<point> h:<domes> h:<obs> h:<desc> <lon> <lat> v`
   with an angle as `b:<0|1> n:<deg> n:<min> v`
-* `wf`:    `OK b:<0|1>` — the decidable well-formedness predicate `Spec.wfText` used as the
-  hypothesis of the C18 theorems, evaluated on the file.
+* `wf`:    `OK b:<0|1>` — `Spec.wfText`: the file is `render s` for a well-formed abstract solution
+  `s` (the hypothesis of the C18 theorems), evaluated on the file.
+* `wft`:   `OK b:<0|1>` — `Spec.wellFormedText`: fixed-width header with a proper stamp and count,
+  every block closed on its own line, `%ENDSNX` last (the conclusion of `blocks_closed_*`).
 -/
 open Sinex
 
@@ -80,6 +82,7 @@ def answer (r : Req) : String :=
   | "mat" => respMat (readMatrix lines)
   | "sites" => respSites (readSites lines)
   | "wf" => "OK " ++ (if Sinex.Spec.wfText lines then "b:1" else "b:0")
+  | "wft" => "OK " ++ (if Sinex.Spec.wellFormedText lines then "b:1" else "b:0")
   | _ => "ERR unknown-op"
 
 partial def loop (h out : IO.FS.Stream) (cur : Req) : IO Unit := do
